@@ -180,9 +180,11 @@ def check_fresh_host(rep, core):
             other = [o for o in ret if o not in operand and o not in fresh]
             key = 'Command::%s|fresh-host' % name
             if operand:
-                rep.bad('R06.g', 'Command::%s|returns-operand' % name,
-                        'Command::%s returns its own operand (parameter %s) with the other command(s) spawned onto it: an AbortHandle taken from that '
-                        'operand before the composition aborts its siblings as well' % (name, sorted(set(o.n for o in operand))))
+                # one instance per operand that can be returned (the finding on `and` is about its LEFT operand, parameter 1)
+                for pn in sorted(set(o.n for o in operand)):
+                    rep.bad('R06.g', 'Command::%s|returns-operand' % name if pn == 1 else 'Command::%s|returns-operand|parameter %d' % (name, pn),
+                            'Command::%s returns its own operand (parameter %d) with the other command(s) spawned onto it — or instead of them: an AbortHandle '
+                            'taken from an operand before the composition aborts its siblings as well, or no longer reaches the combined command' % (name, pn))
             elif other:
                 rep.bad('R06.g', 'Command::%s|returns-unknown' % name,
                         'Command::%s returns a command that is neither freshly created nor built by another combinator (%s): it may be one of the '
